@@ -171,6 +171,35 @@ def calcD (ms : Int) : Fields := calcF (roundMsD (toDouble ms))
 /-- `Date(ms / 1000.0).toUTCString(k)` through the stored double -/
 def toUTCStringD (k : Fmt) (ms : Int) : Bytes := toUTCString k (roundMsD (toDouble ms))
 
+/-! ### arithmetic on the stored double: `Date::operator+(double)`, `operator-(double)`, `operator<`
+
+`_t + dt` for a whole number of seconds `dt = s` (`|s| < 2^53`, exact as a double): the exact sum `n / 2^k + s` rounded
+to binary64 (`round53`: drop the least `j` bits that leave fewer than 54, round-half-even).  `operator-(double)` is the
+same with `-s` (IEEE subtraction is addition of the negated operand). -/
+
+/-- least `j' ≥ j` (within `fuel` steps) with `a < 2^53 * 2^j'` -/
+def shiftFrom (a : Nat) (j : Nat) : Nat → Nat
+  | 0 => j
+  | f + 1 => if a < 9007199254740992 * 2 ^ j then j else shiftFrom a (j + 1) f
+
+/-- round-half-to-even of `N / 2^j` -/
+def rneShift (N : Int) (j : Nat) : Int :=
+  let p := (2 : Int) ^ j
+  let q := N / p
+  let r := N % p
+  if r * 2 < p then q else if p < r * 2 then q + 1 else if q % 2 = 0 then q else q + 1
+
+/-- binary64 rounding of the dyadic `N / 2^k` (no overflow / subnormals for |value| in 2^-1022..2^63) -/
+def round53 (N : Int) (k : Nat) : Int × Nat :=
+  let j := shiftFrom N.natAbs 0 64
+  if j ≤ k then (rneShift N j, k - j) else (rneShift N j * 2 ^ (j - k), 0)
+
+/-- `Date(t) + s` resp. `Date(t) - (-s)` for the stored double `d` and whole seconds `s` -/
+def addSecD (d : Int × Nat) (s : Int) : Int × Nat := round53 (d.1 + s * 2 ^ d.2) d.2
+
+/-- `operator<` on two stored doubles -/
+def ltD (a b : Int × Nat) : Bool := a.1 * 2 ^ b.2 < b.1 * 2 ^ a.2
+
 /-! ## Date::Date(const String&) -/
 
 /-- read `s[i]`; index `length` is the NUL terminator; beyond it the read is out of bounds -/
